@@ -97,12 +97,22 @@ def check_elevate(case, out):
             if not lib.from_library(exc0):
                 raise
     curve = lib.build_curve(c)
-    if case["via"] == "method":
-        curve.degree_increase(t)
-    else:
-        curve.degree = ref.p + t
-    after = lib.state_of(curve)
     expU = oracle.elevated_vector(ref.U, ref.p, t)
+    snap0 = lib.snapshot(curve)
+    try:
+        if case["via"] == "method":
+            curve.degree_increase(t)
+        else:
+            curve.degree = ref.p + t
+    except ValueError as exc:
+        if lib.refined_weight_vanishes(ref, expU, ref.p + t):
+            # mixed-sign weights: the elevated representation would need a control point at infinity
+            if lib.snapshot(curve) != snap0:
+                out.fail("atomicity", klass, f"elevation by {t} refused ({exc}) but the curve changed")
+            out.exclude("elevated-control-weight-vanishes (no finite (P, w) representation)")
+            return
+        raise
+    after = lib.state_of(curve)
     if after.U != expU or after.p != ref.p + t:
         out.fail("knotvector", klass, f"elevation by {t} of U={ref.U}: got {after.U} (degree {after.p}), expected {expU}")
         return
